@@ -171,6 +171,9 @@ CONSTRUCTS = {
     "superhelp": ("foo??", "__xonsh__.superhelp(foo)"),
     "and": ("(hA && hB)", "(hA and hB)"),
     "or": ("(hA || hB)", "(hA or hB)"),
+    "and_bare": ("hA && hB", "hA and hB"),
+    "or_bare": ("hA || hB", "hA or hB"),
+    "pfpath": ("pf'/tmp/{x}'", "__xonsh__.path_literal(f'/tmp/{x}')"),
     "nested": ("$(echo $(pwd) $HOME)", "__xonsh__.subproc_captured('echo', __xonsh__.subproc_captured('pwd'), __xonsh__.env['HOME'])"),
 }
 _TARGET_FIELDS = {
@@ -240,6 +243,8 @@ def c05(X, template, construct, mode="exec"):
     col = i - (template.rfind("\n", 0, i) + 1)
     if "\n" in text:
         return None
+    if construct in ("and_bare", "or_bare"):
+        return None      # an infix construct merges with neighbouring operators of the same kind: no node of its own
     inner_l, inner_r = (1, 1) if construct in ("and", "or") else (0, 0)
     want = (line, col + inner_l, line, col + len(text) - inner_r)
     spans = [(getattr(n, "lineno", None), getattr(n, "col_offset", None), getattr(n, "end_lineno", None), getattr(n, "end_col_offset", None))
@@ -388,13 +393,15 @@ def check_args(X, args, body, base_col, line, why):
     if len(args) != len(words):
         why.append(f"{len(args)} arguments for {len(words)} words {[w for _, _, w in words]}")
         return True
+    def at(off):
+        nl = body.count("\n", 0, off)
+        if nl == 0:
+            return line, base_col + off
+        return line + nl, off - (body.rfind("\n", 0, off) + 1)
     for a, (s, e, w) in zip(args, words):
-        if "\n" in body[:e]:
-            span_ok = True   # columns after a newline are not modelled
-        else:
-            span_ok = (a.lineno, a.col_offset, a.end_lineno, a.end_col_offset) == (line, base_col + s, line, base_col + e)
+        span_ok = (a.lineno, a.col_offset, a.end_lineno, a.end_col_offset) == (*at(s), *at(e))
         if not span_ok:
-            why.append(f"word {w!r}: span {(a.lineno, a.col_offset, a.end_lineno, a.end_col_offset)} expected cols {base_col + s}..{base_col + e}")
+            why.append(f"word {w!r}: span {(a.lineno, a.col_offset, a.end_lineno, a.end_col_offset)} expected {at(s)}..{at(e)}")
             continue
         m = re.fullmatch(r"\$([A-Za-z_]\w*)", w)
         if m:
@@ -416,14 +423,14 @@ def check_args(X, args, body, base_col, line, why):
             if not ok:
                 why.append(f"word {w!r}: expected *subproc_captured_inject(...)")
             else:
-                check_args(X, a.value.args, w[3:-1], base_col + s + 3, line, why)
+                check_args(X, a.value.args, w[3:-1], at(s + 3)[1], at(s + 3)[0], why)
             continue
         nested = next((f for f in FORMS if w.startswith(f) and _single_group(w, 2)), None)
         if nested:
             if _call_name(a) != FORMS[nested][1]:
                 why.append(f"word {w!r}: expected nested {FORMS[nested][1]}")
             else:
-                check_args(X, a.args, w[2:-1], base_col + s + 2, line, why)
+                check_args(X, a.args, w[2:-1], at(s + 2)[1], at(s + 2)[0], why)
             continue
         if "$" in w or "@(" in w or "@$(" in w or any(f in w for f in FORMS) or "{" in w or "(" in w or "[" in w:
             continue   # glued mixed word: only count and span are modelled
@@ -436,8 +443,8 @@ def c06(X, form, body):
     """form in FORMS, body = command text between the brackets"""
     closer, method = FORMS[form]
     src = form + body + closer + "\n"
-    if split_words(body) is None or not split_words(body):
-        return None
+    if split_words(body) is None or not split_words(body) or re.search(r"[$!@][(\[]\s*[)\]]", body):
+        return None     # (an empty nested form is not a command)
     why = []
     k, t = O.run_parse(X, src, "exec")
     words = split_words(body)
@@ -484,7 +491,19 @@ def split_macro_args(text):
                 k += 1
             if k >= n:
                 return None
-            cur.append(text[i:k + len(q)])
+            lit = text[i:k + len(q)]
+            pre = "".join(cur)[-3:].lower()
+            if "f" in pre.lstrip("0123456789 ,([{=+-*/%<>!&|^~:;.") and any(ch in lit for ch in "()[]"):
+                st = []
+                for ch in lit:
+                    if ch in "([{":
+                        st.append({"(": ")", "[": "]", "{": "}"}[ch])
+                    elif ch in ")]}":
+                        if not st or st.pop() != ch:
+                            return None     # an f-string whose fields hold unbalanced brackets is not a complete literal
+                if st:
+                    return None
+            cur.append(lit)
             i = k + len(q)
             continue
         if c == "#":
@@ -740,7 +759,6 @@ ENVS = {
 }
 _CHILD = r'''
 import sys, json, ast, os, tempfile, pathlib
-sys.setrecursionlimit(10000)
 sys.path.insert(0, sys.argv[1])
 from peg_parser.parser import XonshParser
 def obs(f):
@@ -885,7 +903,6 @@ def c13(X, history, repo="/repo"):
             return {"kind": "returned-tree-altered-by-later-parse", "observed": f"tree of call {i}", "expected": "trees share no mutable state"}
     child = r'''
 import sys, json, ast
-sys.setrecursionlimit(10000)
 sys.path.insert(0, sys.argv[1])
 from peg_parser.parser import XonshParser
 src, mode = json.load(sys.stdin)
@@ -1020,6 +1037,8 @@ def measure_work(X, src, mode="exec", limit=None):
     p = X.parser.XonshParser(tz)
     tl = O.time_limit(60.0)
     kind = "HANG"
+    if sys.getrecursionlimit() < 20000:
+        sys.setrecursionlimit(20000)     # work is measured independently of the recursion limit
     with tl:
         try:
             p.parse(mode if mode == "eval" else "file")
@@ -1067,6 +1086,8 @@ def first_pass_work(X, src, mode="exec", limit=None):
     tz = CT(X.tokenize.generate_tokens(io.StringIO(src).readline))
     p = X.parser.XonshParser(tz)
     p.call_invalid_rules = False
+    if sys.getrecursionlimit() < 20000:
+        sys.setrecursionlimit(20000)
     with O.time_limit(60.0):
         try:
             getattr(p, mode if mode == "eval" else "file")()
